@@ -19,4 +19,35 @@ MUTANTS = [
     m("scd-exponent", ["C07"], SEQ, "np.power((m-n),0.5)", "np.power((m-n),1.0)"),
     m("scd-norm", ["C07"], SEQ, "        return total/self.len\n", "        return total/max(1,self.len-1)\n"),
     m("scd-inner-range", ["C07"], SEQ, "for n in range(1,m):", "for n in range(2,m):"),
+    # ---- C01
+    m("kappa-clamp-1.2", ["C01"], SEQ, "if kappaVal > 1.0 and kappaVal < 1.1:", "if kappaVal > 1.0 and kappaVal < 1.2:"),
+    m("kappa-no-clamp", ["C01"], SEQ, "if kappaVal > 1.0 and kappaVal < 1.1:", "if False:"),
+    m("kappa-sentinel-fcr", ["C01"], SEQ, "        if self.deltaMax() == 0:\n            warning_message(", "        if self.FCR() == 0:\n            warning_message("),
+    m("kappa-inverted", ["C01"], SEQ, "kappaVal = self.delta() / self.deltaMax()", "kappaVal = self.deltaMax() / self.delta() if self.delta() else 0.0"),
+    m("kappa-clamp-all", ["C01"], SEQ, "if kappaVal > 1.0 and kappaVal < 1.1:", "if kappaVal > 1.0:", note="clamps every ratio>1: hides KF-1 but breaks the stated ratio rule"),
+    # ---- C02
+    m("delta-blob-5-7", ["C02", "C01"], SEQ, "return (self.deltaForm(5) + self.deltaForm(6)) / 2", "return (self.deltaForm(5) + self.deltaForm(7)) / 2"),
+    m("delta-skip-last-blob", ["C02"], SEQ, "        for i in range(0, nblobs):\n\n            # get the blob charge pattern list", "        for i in range(0, nblobs - 1):\n\n            # get the blob charge pattern list"),
+    m("delta-unsquared-ncpr", ["C02"], SEQ, "                bsig = bncpr**2 / bfcr\n\n            # calculate the square deviation", "                bsig = abs(bncpr) / bfcr\n\n            # calculate the square deviation"),
+    m("delta-weight-len", ["C02"], SEQ, "ans += (sigma - bsig)**2 / nblobs", "ans += (sigma - bsig)**2 / self.len"),
+    m("charge-R-neutral", ["C02", "C04", "C05"], AAS, "             'ARG': 1}", "             'ARG': 0}"),
+    m("charge-H-positive", ["C02", "C04", "C05"], AAS, "             'HIS': 0,\n             'GLU': -1,", "             'HIS': 1,\n             'GLU': -1,"),
+    # ---- C03
+    m("dmax-end-range-5", ["C03"], SEQ, "                for endNeuts in range(0, 7):", "                for endNeuts in range(0, 5):", note="range(0,6) is an equivalent mutant: the maximum is never attained at 6 only"),
+    m("dmax-threshold-17", ["C03"], SEQ, "elif(self.countNeut() >= 18):", "elif(self.countNeut() >= 17):"),
+    m("dmax-threshold-19", ["C03"], SEQ, "elif(self.countNeut() >= 18):", "elif(self.countNeut() >= 19):"),
+    m("dmax-slide-short", ["C03"], SEQ, "                for position in range(0, (self.len - nNeg) + 1):", "                for position in range(1, (self.len - nNeg)):", note="dropping one end only is equivalent by reversal symmetry"),
+    m("dmax-permutant-last-candidate", ["C03"], SEQ, """                    if self.dmax < nseq.delta():
+                      self.dmax = nseq.delta()
+                      if returnSeqDeltaMax:
+                        self.seqDeltaMax = nseq.__permutant_from_reduced_seq(parentSeqObj=self)
+
+        if returnSeqDeltaMax:""", """                    if self.dmax < nseq.delta():
+                      self.dmax = nseq.delta()
+                    if returnSeqDeltaMax:
+                        self.seqDeltaMax = nseq.__permutant_from_reduced_seq(parentSeqObj=self)
+
+        if returnSeqDeltaMax:""", note="general regime records the last candidate's permutant, not the best one"),
+    m("dmax-permutant-H-positive", ["C03"], SEQ, 'posRes = [res for res in parentSeqObj.seq if res in ("R", "K")]', 'posRes = [res for res in parentSeqObj.seq if res in ("R", "K", "H")]'),
+    m("dmax-midneuts-short", ["C03"], SEQ, "            for midNeuts in range(0, nneuts + 1):", "            for midNeuts in range(0, nneuts):"),
 ]
